@@ -155,14 +155,14 @@ refused with `EngineError` by `Join.apply`, because its operands live in differe
 well-formed, lives in the target's engine and has the columns and - as a multiset - the rows of the join applied at the
 root. -/
 theorem join_with_backtracking_sound (σ : Leaves) (st : Store) (fuel : Nat) (p : PJoin) (t : Rel) (o : Opts)
-    (hpref : o.pref = none) (hbt : o.backtrack = true) (htr : o.transfer = false)
+    (hpref : o.pref = none ∨ o.pref = some p.fixed.engine) (hbt : o.backtrack = true) (htr : o.transfer = false)
     (hkt : t.engine.kind = .iter) (hks : p.fixed.engine.kind = .sql)
     (gF : Good NodeInv.triv σ p.fixed)
     (hfix0 : p.join.resolved = true → p.join.minCols.subset p.fixed.columns = true)
     (hwf : t.WF) (htrt : t.Truthful σ) (hpo : t.prefTargetsGood NodeInv.triv σ p.fixed.engine)
     (hnp : t.spineNoPayload st)
     (res : Res) (h : applyOp st fuel (.pj p) t o = .ok res) :
-    ∃ p', p.beginApply t none = .ok (p', p.fixed.engine) ∧
+    ∃ p', p.beginApply t o.pref = .ok (p', p.fixed.engine) ∧
       (res.get t).WF ∧ (res.get t).Truthful σ ∧ (res.get t).engine = t.engine ∧
       List.Perm (sem σ (res.get t)) (p'.semRows (sem σ p'.fixed) (sem σ t)) ∧
       (∀ x, x ∈ (res.get t).columns ↔ x ∈ p'.appliedColumns t.columns) := by
@@ -175,14 +175,14 @@ result lives in the target's engine, OR - only with `transfer=True` - back-track
 transferred into the database (`conform(Transfer(target))`) and joined there, and the result lives in the preferred
 engine; in both cases it is well-formed and has the columns and - as a multiset - the rows of the join at the root. -/
 theorem join_with_backtracking_and_transfer_sound (σ : Leaves) (st : Store) (fuel : Nat) (p : PJoin) (t : Rel)
-    (o : Opts) (hpref : o.pref = none) (hbt : o.backtrack = true)
+    (o : Opts) (hpref : o.pref = none ∨ o.pref = some p.fixed.engine) (hbt : o.backtrack = true)
     (hkt : t.engine.kind = .iter) (hks : p.fixed.engine.kind = .sql)
     (gF : Good NodeInv.triv σ p.fixed)
     (hfix0 : p.join.resolved = true → p.join.minCols.subset p.fixed.columns = true)
     (hwf : t.WF) (htrt : t.Truthful σ) (hpo : t.prefTargetsGood NodeInv.triv σ p.fixed.engine)
     (hnp : t.spineNoPayload st) (hts : o.transfer = true → transferSimplify p.fixed.engine t = none)
     (res : Res) (h : applyOp st fuel (.pj p) t o = .ok res) :
-    ∃ p', p.beginApply t none = .ok (p', p.fixed.engine) ∧
+    ∃ p', p.beginApply t o.pref = .ok (p', p.fixed.engine) ∧
       (res.get t).WF ∧ (res.get t).Truthful σ ∧
       ((res.get t).engine = t.engine ∨ (o.transfer = true ∧ (res.get t).engine = p.fixed.engine)) ∧
       List.Perm (sem σ (res.get t)) (p'.semRows (sem σ p'.fixed) (sem σ t)) ∧
@@ -190,7 +190,7 @@ theorem join_with_backtracking_and_transfer_sound (σ : Leaves) (st : Store) (fu
   obtain ⟨p', hb, B | ⟨ht, J⟩⟩ :=
     applyOp_pj_any_transfer σ st fuel p t o hpref hbt hkt hks gF hfix0 hwf htrt hpo hnp hts res h
   · exact ⟨p', hb, B.wf, B.truthful, Or.inl B.engine, B.rows, B.cols⟩
-  · obtain ⟨f1, _⟩ := pjBeginApply_ok p t none p' _ hfix0 hb
+  · obtain ⟨f1, _⟩ := pjBeginApply_ok p t o.pref p' _ hfix0 hb
     exact ⟨p', hb, J.wf, J.truthful, Or.inr ⟨ht, by rw [J.engine, f1]⟩, J.rows, J.cols⟩
 
 /-- **A join applied with EVERY combination of `backtrack` / `transfer` / `require_preferred_engine`** (the preferred
@@ -200,14 +200,14 @@ rows of the join applied at the root; it lives in the target's engine (only poss
 was moved into the database below a transfer) or in the preferred engine (only possible with `transfer=True`: the target
 was transferred into the database and joined there).  With neither option the call raises. -/
 theorem join_with_every_option_sound (σ : Leaves) (st : Store) (fuel : Nat) (p : PJoin) (t : Rel)
-    (o : Opts) (hpref : o.pref = none)
+    (o : Opts) (hpref : o.pref = none ∨ o.pref = some p.fixed.engine)
     (hkt : t.engine.kind = .iter) (hks : p.fixed.engine.kind = .sql)
     (gF : Good NodeInv.triv σ p.fixed)
     (hfix0 : p.join.resolved = true → p.join.minCols.subset p.fixed.columns = true)
     (hwf : t.WF) (htrt : t.Truthful σ) (hpo : t.prefTargetsGood NodeInv.triv σ p.fixed.engine)
     (hnp : t.spineNoPayload st) (hts : o.transfer = true → transferSimplify p.fixed.engine t = none)
     (res : Res) (h : applyOp st fuel (.pj p) t o = .ok res) :
-    ∃ p', p.beginApply t none = .ok (p', p.fixed.engine) ∧
+    ∃ p', p.beginApply t o.pref = .ok (p', p.fixed.engine) ∧
       (res.get t).WF ∧ (res.get t).Truthful σ ∧
       ((o.backtrack = true ∧ (res.get t).engine = t.engine) ∨
         (o.transfer = true ∧ (res.get t).engine = p.fixed.engine)) ∧
@@ -216,7 +216,7 @@ theorem join_with_every_option_sound (σ : Leaves) (st : Store) (fuel : Nat) (p 
   obtain ⟨p', hb, ⟨hbt, B⟩ | ⟨ht, J⟩⟩ :=
     applyOp_pj_all_options σ st fuel p t o hpref hkt hks gF hfix0 hwf htrt hpo hnp hts res h
   · exact ⟨p', hb, B.wf, B.truthful, Or.inl ⟨hbt, B.engine⟩, B.rows, B.cols⟩
-  · obtain ⟨f1, _⟩ := pjBeginApply_ok p t none p' _ hfix0 hb
+  · obtain ⟨f1, _⟩ := pjBeginApply_ok p t o.pref p' _ hfix0 hb
     exact ⟨p', hb, J.wf, J.truthful, Or.inr ⟨ht, by rw [J.engine, f1]⟩, J.rows, J.cols⟩
 
 /-- Tie to the source: the `commute` methods that `backtrack_unary` consults - including
